@@ -147,7 +147,10 @@ theorem decodeBodyPlain_RT (h : Header) (b : Body) (hv : ValidBody h b) (bs : By
     cases hf : hasFlag h.flags HeaderFlagWarning with
     | false => simp
     | true => rw [(hv.warnings hf).1]; rfl
-  rw [hwcond]
+  have hwcond' : (hasFlag h.flags HeaderFlagWarning && b.message.isResponse) = hasFlag h.flags HeaderFlagWarning := by
+    rw [← hv.direction, Bool.and_comm]; exact hwcond
+  rw [hwcond] 
+  rw [hwcond'] at hwa
   rw [bind_ok (whenP_whenW_RT (hasFlag h.flags HeaderFlagWarning) (some <$> readStringList) none
     (if hasFlag h.flags HeaderFlagWarning then b.warnings else none) _ wa hwa _
     (fun hc b' hb' => by
@@ -192,6 +195,11 @@ theorem encodeBodyUncompressed_len (h : Header) (b : Body) (hv : ValidBody h b) 
       rw [hu] at htr
       cases writeUuid_ok (some u) tr htr
       exact hl
+  have hwcond' : (hasFlag h.flags HeaderFlagWarning && b.message.isResponse) = hasFlag h.flags HeaderFlagWarning := by
+    cases hf : hasFlag h.flags HeaderFlagWarning with
+    | false => rfl
+    | true => rw [← hv.direction, (hv.warnings hf).1]; rfl
+  rw [hwcond'] at hwa ⊢
   have h2 : wa.length = optN (hasFlag h.flags HeaderFlagWarning) (lengthOfStringList (b.warnings.getD [])) := by
     cases hc : hasFlag h.flags HeaderFlagWarning with
     | false => rw [hc, whenW_false] at hwa; rw [← Res.ok_inj hwa]; rfl
